@@ -41,7 +41,11 @@ def is_valid_rule(rep, prog):
         ok_shape = len(body) == 1 and isinstance(body[0], ast.Try) and len(body[0].body) == 1 and isinstance(body[0].body[0], ast.Return) \
             and not body[0].orelse and not body[0].finalbody
         if not ok_shape:
-            calls_validate = any(isinstance(c, ast.Call) and isinstance(c.func, ast.Name) and c.func.id == 'validate' for c in ast.walk(fn))
+            def calls(f_, name):
+                return any(isinstance(c, ast.Call) and isinstance(c.func, ast.Name) and c.func.id == name for c in ast.walk(f_))
+            # directly, or through a helper of the module that calls validate()
+            mfuncs = prog.mods[r[1]].funcs
+            calls_validate = calls(fn, 'validate') or any(calls(fn, h) and calls(mfuncs[h], 'validate') for h in mfuncs if h not in ('validate', fn.name))
             if not calls_validate:
                 # a second copy of the rules: nothing ties its verdict (or what escapes from it) to validate()
                 rep.fail('C01.is_valid', file, 'is_valid', src(body[-1])[:120] if body else 'def is_valid', fn.lineno,
